@@ -91,6 +91,50 @@ def specPheno (gv : List (List Rat)) (taxa : Option (List String)) (grp : Option
   | some tx => specPhenoKeys gv (labels tx grp) nrep rows && (!zeroNoise || specPhenoVals gv (labels tx grp) nrep rows)
   | none => specPhenoKeysUnnamed gv.length grp nrep rows && (!zeroNoise || specPhenoValsUnnamed gv nrep rows)
 
+/-! ### the noise-structure oracle: `record − true value = environment effect + replicate effect + iid error`, read
+component by component.  A component whose variance is zero is absent (`N(0,0)` is the point mass); a component with
+positive variance is a continuous variate, so with a genuine generator its values are almost surely pairwise distinct. -/
+
+/-- the residuals `record − true value` of ONE trait in one (environment, replicate) cell, taxon by taxon -/
+structure ResCell where
+  env : Nat
+  rep : Nat
+  res : List Rat
+deriving Repr
+
+/-- every entry within `tol` of the first one -/
+def nearConst (tol : Rat) : List Rat → Bool
+  | [] => true
+  | a :: l => l.all (fun x => within tol x a)
+
+/-- the residual shared by the taxa of a cell (its first entry) -/
+def cellConst (c : ResCell) : Rat := c.res.headD 0
+
+/-- one shared residual per environment (that of its first cell) -/
+def envConsts (cells : List ResCell) : List Rat :=
+  (cells.map (·.env)).eraseDups.map (fun e => ((cells.find? (fun c => c.env == e)).map cellConst).getD 0)
+
+/-- one trait with variances `ve, vr, vx`:
+    * `vx = 0`: the taxa of a cell share one residual; if `vr = 0` too the cells of an environment share it; if `ve = 0` too
+      it is zero (all up to `tol`, the rounding of the binary64 sums);
+    * with a genuine generator: `vx > 0` ⇒ all residuals pairwise distinct; else `vr > 0` ⇒ the cell residuals pairwise
+      distinct; else `ve > 0` ⇒ the environment residuals pairwise distinct. -/
+def specNoiseTrait (tol ve vr vx : Rat) (genuine : Bool) (cells : List ResCell) : Bool :=
+  if vx = 0 then
+    cells.all (fun c => nearConst tol c.res) &&
+    (if vr = 0 then
+      cells.all (fun c => cells.all (fun c' => c.env != c'.env || within tol (cellConst c) (cellConst c'))) &&
+      (if ve = 0 then cells.all (fun c => c.res.all (fun x => within tol x 0))
+       else !genuine || decide (envConsts cells).Nodup)
+     else !genuine || decide (cells.map cellConst).Nodup)
+  else !genuine || decide (cells.flatMap (·.res)).Nodup
+
+/-- all traits: `cells[j]` are the residual cells of trait `j` -/
+def specNoise (tol : Rat) (ve vr vx : List Rat) (genuine : Bool) (cells : List (List ResCell)) : Bool :=
+  cells.length == ve.length && ve.length == vr.length && vr.length == vx.length &&
+  (List.zip cells (List.zip ve (List.zip vr vx))).all
+    (fun x => specNoiseTrait tol x.2.1 x.2.2.1 x.2.2.2 genuine x.1)
+
 /-! ### the heritability clause -/
 
 /-- one trait: the error variance is a variance (`≥ 0`); when there is genetic variance, genetic over genetic-plus-error
@@ -205,14 +249,20 @@ def varSetter (ntrait : Nat) : VarArg α → Option (List α)
   | .array l => if l.length == ntrait && l.all (fun x => !(decide (x < 0))) then some l else none
 
 /-- one setter call on a constructed object (`none`: the setter raises and the object is unchanged — modelled as the whole
-    history failing).  `setNenv` stores the number and NOTHING ELSE (the replicate array keeps its length: D60);
+    history failing).  `setNenv` (repaired, fix of D60) stores the number and makes the replicate array follow
+    (`nrepFollow`: truncate / re-broadcast a constant array / leave a non-constant one alone);
     `setNrep` broadcasts / checks against the CURRENT `nenv`. -/
 def cfgStep (ntrait : Nat) (c : Cfg α) : CfgOp α → Option (Cfg α)
-  | .setNenv n => if 0 < n then some { c with nenv := n } else none
+  | .setNenv n => if 0 < n then some { c with nenv := n, nrep := nrepFollow n c.nrep } else none
   | .setNrep x => (nrepSetter c.nenv x).map (fun l => { c with nrep := l })
   | .setVarEnv v => (varSetter ntrait v).map (fun l => { c with varEnv := l })
   | .setVarRep v => (varSetter ntrait v).map (fun l => { c with varRep := l })
   | .setVarErr v => (varSetter ntrait v).map (fun l => { c with varErr := l })
+
+/-- the setters BEFORE the repair of D60: `setNenv` stored the number and NOTHING ELSE -/
+def cfgStepPrerepair (ntrait : Nat) (c : Cfg α) : CfgOp α → Option (Cfg α)
+  | .setNenv n => if 0 < n then some { c with nenv := n } else none
+  | op => cfgStep ntrait c op
 
 /-- the constructor (order-dependent assignments l.116-121) -/
 def cfgInit (ntrait nenv : Nat) (nrep : Nat ⊕ List Nat) (ve vr vx : VarArg α) : Option (Cfg α) :=
@@ -225,6 +275,10 @@ def cfgInit (ntrait nenv : Nat) (nrep : Nat ⊕ List Nat) (ve vr vx : VarArg α)
 def cfgRun (ntrait : Nat) : Cfg α → List (CfgOp α) → Option (Cfg α)
   | c, [] => some c
   | c, op :: ops => (cfgStep ntrait c op).bind (fun c' => cfgRun ntrait c' ops)
+
+def cfgRunPrerepair (ntrait : Nat) : Cfg α → List (CfgOp α) → Option (Cfg α)
+  | c, [] => some c
+  | c, op :: ops => (cfgStepPrerepair ntrait c op).bind (fun c' => cfgRunPrerepair ntrait c' ops)
 
 /-- the layout `phenotype()` walks through: `zip(range(nenv), nrep)` -/
 def Cfg.layout (c : Cfg α) : List Nat := c.nrep.take c.nenv
